@@ -149,6 +149,14 @@ def replay(case):
         for v in viol:
             print("  %s :: %s" % (v["site"], v["detail"][:400]))
         return bool(viol)
+    if case["op"].get("op") == "from_array" and (case.get("property") == "C07" or "rowscan" in case["op"]):
+        from .props import c07
+
+        viol, _ = c07.construction_family(None, case.get("tier", "quick"), part=None if "rowscan" not in case["op"] else None)
+        viol = [v for v in viol if v["op"] == case["op"]]
+        for v in viol:
+            print("  %s :: %s" % (v["site"], v["detail"][:400]))
+        return bool(viol)
     if case["op"].get("op") == "from_array":
         from .props import c15
 
